@@ -111,8 +111,42 @@ func pdData(r *Rng, l int) []byte {
 	return b
 }
 
+// pdEnumerate: every call sequence of length 1..maxLen over a fixed alphabet on the padded piece
+// [data 2][pad 1][data 2] with block size 2 (blocks (0,2) and (3,2)).
+func pdEnumerate(maxLen int) []Case {
+	alphabet := []string{
+		"request q=1", "request q=2", "got begin=0 data=a1a2", "got begin=3 data=b1b2", "got begin=0 data=c1",
+		"got begin=1 data=d1d2", "got begin=3 data=e1e2", "choked", "rejected begin=0 len=2", "rejected begin=3 len=2",
+		"cancel", "done",
+	}
+	var cases []Case
+	id := 0
+	var rec func(prefix []string, depth int)
+	rec = func(prefix []string, depth int) {
+		if len(prefix) > 0 {
+			id++
+			fast := id%3 == 0
+			ops := append([]string{fmt.Sprintf("new bs=2 real=0 secs=2:0,1:1,2:0 af=0 fast=%s short=0", b01(fast))}, prefix...)
+			cases = append(cases, Case{ID: fmt.Sprintf("pd-enum-%d", id), Ops: ops})
+		}
+		if depth == 0 {
+			return
+		}
+		for _, a := range alphabet {
+			rec(append(append([]string(nil), prefix...), a), depth-1)
+		}
+	}
+	rec(nil, maxLen)
+	return cases
+}
+
 func genPD(r *Rng, n int, tier string) []Case {
 	var cases []Case
+	if tier == "thorough" {
+		cases = append(cases, pdEnumerate(4)...)
+	} else {
+		cases = append(cases, pdEnumerate(3)...)
+	}
 	for ci := 0; ci < n; ci++ {
 		var ops []string
 		real := r.Chance(6)
